@@ -197,4 +197,17 @@ example : Typed 1 1 xDen ∧ (Stage.tr (rowFn intOps) sDen xDen)[1]?
   · intro r hr; simp [xDen] at hr; rcases hr with rfl | rfl | rfl <;> simp
   · decide +kernel
 
+/-- a DataFrame is only accepted when it carries the fit-time names in the fit-time positions: column `i` of every
+accepted input is the column whose name was captured for position `i`, so the output names (which are built from the
+captured names by position) label the data they were built for.  A permutation of the columns is rejected. -/
+theorem C19_accepted_same_positions (fitNames callNames : List String)
+    (h : namesAccepted (some fitNames) (some callNames) = true) :
+    callNames = fitNames ∧ ∀ i : Nat, callNames[i]? = fitNames[i]? := by
+  have : fitNames = callNames := by simpa [namesAccepted] using h
+  subst this
+  exact ⟨rfl, fun _ => rfl⟩
+
+example : namesAccepted (some ["pos", "vel", "force"]) (some ["vel", "pos", "force"]) = false
+    ∧ namesAccepted (some ["pos", "vel"]) none = false ∧ namesAccepted none none = true := by decide
+
 end Pk.C19
